@@ -192,6 +192,11 @@ pub fn run_pipeline(
             Ok(fds) => fds_capture_stdout = Some(fds),
             Err(e) => {
                 println_stderr!("cicada: pipeline2: {}", e);
+                // release the stage pipes created above
+                for fds in &pipes {
+                    libs::close(fds.0);
+                    libs::close(fds.1);
+                }
                 return (false, CommandResult::error());
             }
         }
@@ -199,6 +204,11 @@ pub fn run_pipeline(
             Ok(fds) => fds_capture_stderr = Some(fds),
             Err(e) => {
                 if let Some(fds) = fds_capture_stdout {
+                    libs::close(fds.0);
+                    libs::close(fds.1);
+                }
+                // release the stage pipes created above
+                for fds in &pipes {
                     libs::close(fds.0);
                     libs::close(fds.1);
                 }
